@@ -145,6 +145,11 @@ impl Store {
             }
         }
 
+        // After a process crash the page cache may hold a meta page whose fsync never completed.
+        // Recovery (WAL replay, rollback log pruning) acts on what is read here, so make it
+        // durable first: otherwise a later power loss could revert the meta page underneath the
+        // changes recovery made on its behalf.
+        meta_fd.sync_all()?;
         let meta = meta::Meta::read(&page_pool, &meta_fd)?;
         meta.validate()?;
         let values = beatree::Tree::open(
